@@ -64,16 +64,17 @@ func (r *Root) MoveNames() []string {
 
 // Info is one parsed info line.
 type Info struct {
-	Raw      string
-	Abort    bool // the short "info depth D nodes N" line written on abort
-	Depth    int
-	Score    string
-	Nodes    int
-	Time     int
-	HashFull int
-	PV       []string
-	Text     bool     // an `info string ...` line
-	kept     []string // the tokens that are not functions of the wall clock
+	Raw                          string
+	Abort                        bool // the short "info depth D nodes N" line written on abort
+	Depth                        int
+	Score                        string
+	Nodes                        int
+	Time                         int
+	HashFull                     int
+	PV                           []string
+	HasDepth, HasNodes, HasScore bool
+	Text                         bool     // an `info string ...` line
+	kept                         []string // the tokens that are not functions of the wall clock
 }
 
 // Result is the observable outcome of one search.
@@ -229,10 +230,8 @@ func ParseInfo(l string) (Info, bool) {
 			return in, false
 		}
 	}
-	if !in.Text && !seen["depth"] {
-		return in, false // a search report names its iteration
-	}
-	in.Abort = !in.Text && !hasScore && !hasPV
+	in.HasDepth, in.HasNodes, in.HasScore = seen["depth"], seen["nodes"], hasScore
+	in.Abort = !in.Text && !hasScore && !hasPV && !seen["currmove"] && seen["nodes"]
 	return in, true
 }
 
@@ -277,13 +276,23 @@ func CheckC07(root *Root, res *Result) (issues []Issue, stats map[string]int) {
 	lastDepth, lastNodes := -1, -1
 	lastPV := []string(nil)
 	for _, in := range res.Infos {
-		if in.Depth <= lastDepth {
-			issues = append(issues, Issue{"reported-depth-not-increasing", fmt.Sprintf("depth %d after depth %d (%q)", in.Depth, lastDepth, in.Raw)})
+		// sanity of the iteration reports (lines that carry a score): depths do not go back, node
+		// counts do not go back on any line that has one. Other lines (currmove ...) are free.
+		if in.HasScore && in.HasDepth {
+			if in.Depth < lastDepth {
+				issues = append(issues, Issue{"reported-depth-not-increasing", fmt.Sprintf("depth %d after depth %d (%q)", in.Depth, lastDepth, in.Raw)})
+			}
+			lastDepth = in.Depth
 		}
-		if in.Nodes < lastNodes {
-			issues = append(issues, Issue{"reported-nodes-decreasing", fmt.Sprintf("nodes %d after %d (%q)", in.Nodes, lastNodes, in.Raw)})
+		if in.HasNodes {
+			if in.Nodes < lastNodes {
+				issues = append(issues, Issue{"reported-nodes-decreasing", fmt.Sprintf("nodes %d after %d (%q)", in.Nodes, lastNodes, in.Raw)})
+			}
+			lastNodes = in.Nodes
 		}
-		lastDepth, lastNodes = in.Depth, in.Nodes
+		if !in.HasScore && !in.Abort && len(in.PV) == 0 {
+			continue
+		}
 		if in.Abort {
 			stats["abort_lines"]++
 			continue
